@@ -13,12 +13,21 @@ CLAIMED = {
  "C03": ("fault_enumeration", "4 C03", "fault injection with complete enumeration of fault positions per generated scenario + Hypothesis single faults + atheris on the UDP entry point; metamorphic oracle against the fault-free run",
          "For every generated scenario all six position faults are applied at every packet of the victim, all single-bit flips of ClientHello/ServerHello are enumerated, key-log, suite and foreign-traffic faults are drawn; bystander exports must be identical to the fault-free run and the victim may only lose a suffix. Scenario space itself is sampled.",
          "trusted: reference encoders; QUIC victims may export an order-preserving sub-list instead of a prefix (documented weakening)"),
+ "C04": ("exploration", "4 C04", "metamorphic testing: combined capture vs. per-connection solo captures over generated order-preserving merges (Hypothesis)",
+         "2-10 TLS/QUIC connections in adversarial endpoint topologies are interleaved by a drawn order-preserving merge with a shuffled common key log; each connection's packets in the combined export must equal its solo export byte for byte and time for time, and nothing else may be exported.",
+         "trusted: reference encoders; the set of merges is sampled, not enumerated"),
  "C05": ("exploration", "4 C05", "rule-based state machine against a reassembly model (component) + exhaustive cut subsets + Hypothesis schedules end to end",
          "A RuleBasedStateMachine delivers segments of a drawn two-direction record stream in order, early (displacement <= 4) or duplicated, with ISNs incl. wrap, and after every step compares the records Session hands to its record handler with the model; all cut subsets of short streams are enumerated; end-to-end schedules must export the ground truth.",
          "trusted: reassembly model in checks/c05.py; domain: causal reordering, exact duplicates; open finding F05r (reordering inside the ClientHello) excluded by construction and probed"),
  "C06": ("exploration", "4 C06", "validity predicate over generated captures and options: strict pcapng reader, frame parser and TCP reassembler; complete (record length x carrying packets) grid",
          "No expected bytes are needed: the output of every generated capture (decryptable, undecryptable, foreign traffic, empty) under every option mix must satisfy the strict reader/parser/reassembler; the n x k splitting grid is enumerated completely.",
          "trusted: the validity predicate in lib/netio.py and lib/oracle.py"),
+ "C07": ("exploration", "4 C07", "provenance model over generated scenarios: every exported segment/datagram is traced to the input packets that carried its record (Hypothesis)",
+         "Endpoints, orientation, IP version, client port and microsecond timestamps of every exported packet are checked against a model that knows which input packets overlap which record; the synthetic handshake's time is checked too.",
+         "trusted: lib/scenario record/packet spans; membership semantics for timestamps"),
+ "C08": ("fault_enumeration", "4 C08", "crash-point enumeration: every cut position of every generated capture, metamorphic prefix chain against ground truth",
+         "For each generated TLS/QUIC capture all N+1 prefixes are exported; exports must form a chain of prefixes ending in the ground truth. The cut positions are enumerated completely, the captures are sampled.",
+         "trusted: reference encoders and strict reassembler"),
  "C09": ("exploration", "4 C09", "metamorphic testing: output bytes under generated key-delivery variants vs. the canonical key log (Hypothesis; subprocess runs for the no -s form)",
          "Each generated scenario is exported with its canonical key log and with a drawn delivery variant (order, line ends, decorations, hex case, file / DSB / both / split / partitioned); the output files must be byte-identical.",
          "trusted: lib/scenario.keylog_text (decorations), lib/netio DSB writer"),
@@ -31,9 +40,15 @@ CLAIMED = {
  "C12": ("exploration", "4 C12", "metamorphic testing: same packets in generated container variants vs. the reference container (Hypothesis)",
          "The same scenario with exact rational capture times is written as pcapng LE/BE with every if_tsresol class, offsets and unrelated blocks, and as legacy pcap (micro/nanosecond, LE/BE); exported packets and timestamps must agree with the reference container, byte-identically when the times are whole microseconds.",
          "trusted: lib/netio pcap/pcapng writers"),
+ "C13": ("exploration", "4 C13", "metamorphic testing: export with -a vs. without (subsequence relation for TLS, exact frame-order model for QUIC)",
+         "Every generated TLS/QUIC scenario is exported twice; without-a packets must be a subsequence of with-a packets, additions must be handshake/CCS/alert material of the same direction, ClientHello/ServerHello verbatim; QUIC datagrams must equal CRYPTO+STREAM data in frame order.",
+         "trusted: reference encoders (they know every record and frame they produced)"),
  "C14": ("exploration", "4 C14", "exhaustive enumeration of all 65536 code points against an independent registry copy and name parser",
          "The input domain is finite and is enumerated completely (both resolvers), so for this tree the result is exact relative to the registry copy and the name grammar; it is still a test of the resolvers, not a proof about the registry.",
          "trusted: data/iana_tls_cipher_suites.json (provenance data/build_registry.py) and the token grammar of lib/tlsref.Suite"),
+ "C15": ("exploration", "4 C15", "differential testing against reference key schedules: complete suite/version sweep through the real CLI path, QUIC grid + histories with per-packet key observation, function-level PRF tests",
+         "Installed key material is read from the decryptor objects after a real run for every table combination and compared with hashlib/hmac reference schedules; for QUIC every generation reached and the key actually used for every packet are compared.",
+         "trusted: hashlib/hmac, RFC transcriptions in lib/tlsref.py and lib/quicref.py"),
  "C16": ("exploration", "4 C16", "differential testing against the RFC 9000 A.3 pseudo-code: boundary enumeration + Hypothesis + rule-based state machine",
          "Every window / half-window / 2^62 boundary at every magnitude 2^0..2^62 and all four lengths is enumerated, the rest sampled; histories with gaps and reordering are generated by a RuleBasedStateMachine with an RFC model per (space, direction). 2^62 x 4 x 2^32 cannot be enumerated, so this is exploration aimed at the decision boundaries.",
          "trusted: the transcription of RFC 9000 A.3 in lib/quicref.rfc_decode_pn"),
